@@ -19,6 +19,7 @@ type GenOpts struct {
 	KeyPool    int  // keys are drawn from a small pool so that histories overlap
 	Budget     *int // remaining data nodes this tree may still get (nil: unlimited)
 	EmptyLL    bool // a leaf-list may be present with zero items
+	CommaKeys  bool // string key parts hold commas: ("a,b","c") and ("a","b,c") read alike once joined
 }
 
 // WithBudget returns o limited to n data nodes.
@@ -175,8 +176,14 @@ func keyValue(r *kit.Rng, s *schema.Node, o GenOpts) string {
 			return confusableInts[r.Intn(n)]
 		}
 		if s.Type == "string" {
+			if o.CommaKeys {
+				return commaStrs[r.Intn(len(commaStrs))]
+			}
 			return confusableStrs[r.Intn(n)]
 		}
+	}
+	if o.CommaKeys && s.Type == "string" {
+		return commaStrs[r.Intn(len(commaStrs))]
 	}
 	switch s.Type {
 	case "int32", "int64", "uint8":
@@ -203,6 +210,7 @@ var AnyJSON = []string{`{"a":1}`, `[1,"x",{"b":null}]`, `"str \" esc \\ \u2028"`
 
 var confusableInts = []string{"1", "21", "12", "2", "121", "11"}
 var confusableStrs = []string{"k1", "k12", "k", "1k", "k1k", "12"}
+var commaStrs = []string{"a,b", "a", "b,c", "c", "b", "a,b,c", ",", "a,"}
 
 // pickCases decides, per choice under s, which single case (if any) may hold
 // data, so that generated trees are conforming.
